@@ -30,8 +30,8 @@ def run(ctx):
         if msg:
             ctx.violation({'opt': o['opt'], 'tags': ['stage-list'], 'what': msg}, 'filter stack differs from Options.tla: %s' % msg)
     ctx.cov['option_states'] = len(opts)
-    progs = sqlprog.programs(ctx, 250 if quick else 6000, PID + '_progs', seed=ctx.seed * 7 + 1)
-    progs += sqlprog.programs(ctx, 100 if quick else 2000, PID + '_progs_small', fuel=10, maxout=40, seed=ctx.seed * 7 + 2)
+    progs = sqlprog.programs(ctx, 250 if quick else 1500, PID + '_progs', seed=ctx.seed * 7 + 1)
+    progs += sqlprog.programs(ctx, 100 if quick else 600, PID + '_progs_small', fuel=10, maxout=40, seed=ctx.seed * 7 + 2)
     traces, meta = [], []
     unspellable = 0
     for p in progs:
